@@ -135,6 +135,11 @@ def mk_app(fn, args=(), kw=()):
         return mk_app("getitem", [args[0], Const(None)])
     if fn == "getitem" and len(args) == 2:
         base, idx = args
+        if isinstance(base, App) and base.fn == "diagonal" and len(base.args) == 1 and isinstance(idx, Tup) and len(idx.items) == 2 \
+                and idx.items[0] == Const(Ellipsis) and {k: v for k, v in (base.kw or [])}.get("axis1") in (Const(-1), Const(-2)) \
+                and {k: v for k, v in (base.kw or [])}.get("axis2") in (Const(-1), Const(-2)) and len(base.kw) == 2:
+            # element j of the diagonal over the last two axes: diagonal(M)[..., j] = M[..., j, j]
+            return mk_app("getitem", [base.args[0], Tup([Const(Ellipsis), idx.items[1], idx.items[1]])])
         _full = App("slice", (Const(None), Const(None), Const(None)))
         if isinstance(idx, Tup) and type(idx) is Tup and Const(Ellipsis) not in idx.items and idx.items and idx.items[-1] == _full:
             # trailing full slices select everything: x[None, :] = x[None]
